@@ -128,6 +128,34 @@ def run(res, proof):
                 res.violation('reaction:different-request-identified', {'history': list(hl)}, o3, 'another object')
         del x, rs, ps
         lines.extend(hl); impl.extend(ho)
+    # ---- reactions between overlapping macrostates that share their canonically smallest member
+    import itertools as _it
+    for trio in _it.permutations(CX[:4], 3):
+        a, b, c = trio
+        hl, ho = start()
+        o1 = step(hl, ho, 'mk.macro\t0\t%s\th%d h%d' % (iw.held[b].name, a, b))
+        o2 = step(hl, ho, 'mk.macro\t0\t%s\th%d h%d' % (iw.held[c].name, a, c))
+        d = [x for x in CX if x not in trio][0]
+        o3 = step(hl, ho, 'mk.macro\t0\t-\th%d' % d)
+        if not (o1.startswith('ret h7 new') and o2.startswith('ret h8 new') and o3.startswith('ret h9 new')):
+            lines.extend(hl); impl.extend(ho); continue
+        res.evaluations += 1
+        res.nontriv(('overlap', trio))
+        for side in ('reactants', 'products'):
+            fw = 'mk.rxn\t0\t-\tcondensed\t%s\t%s' % (('h7 h8', 'h9') if side == 'reactants' else ('h9', 'h7 h8'))
+            bw = 'mk.rxn\t0\t-\tcondensed\t%s\t%s' % (('h8 h7', 'h9') if side == 'reactants' else ('h9', 'h8 h7'))
+            x1 = step(hl, ho, bw)
+            x2 = step(hl, ho, fw)
+            if x1.startswith('ret h') and x2.split(' ')[:2] != x1.split(' ')[:2]:
+                res.violation('reaction:overlapping-macrostates-order', {'history': list(hl)}, x2, 'the same object as the permuted request')
+            if x1.startswith('ret h'):
+                rx = iw.held[int(x1.split(' ')[1][1:])]
+                ms = sorted([iw.held[7], iw.held[8]], key=lambda m: m.canonical_form)
+                listed = list(rx.reactants if side == 'reactants' else rx.products)
+                if [id(m) for m in listed] != [id(m) for m in ms]:
+                    res.violation('reaction:not-in-canonical-order', {'history': list(hl)}, repr(listed), repr(ms))
+                del rx, ms, listed
+        lines.extend(hl); impl.extend(ho)
     # ---- reactions between macrostates
     for _ in range(20 if quick else 300):
         hl, ho = start()
